@@ -135,4 +135,26 @@ theorem holds_once_closes_once (cs : CloseSite) (_ : cs ∈ closeSites) (o : Nat
   rw [List.mem_replicate] at ha
   rw [ha.2]; simp [ClosesOK]
 
+/-! ### the reply channels of the two broker streamers -/
+
+/-- Both `Send` methods (`gRPCBrokerClientImpl` in the host, `gRPCBrokerServer` in the plugin) return —
+and thereby close their reply channel — only through the receive of the reply once the request is handed
+over, and both stream goroutines send exactly one reply per request they take. -/
+theorem facts_good_reply_channel : Facts.replyChanClient.Good ∧ Facts.replyChanServer.Good := by decide
+
+/-- **No send on a closed channel** in either streamer: any number of `Send`s (from `Accept`, `knock`,
+knock acks), any interleaving with the stream goroutine and with `Close` of the broker. -/
+theorem holds_no_send_on_closed_channel (s : ReplyChan.State)
+    (h : ReplyChan.Reachable Facts.replyChanClient s ∨ ReplyChan.Reachable Facts.replyChanServer s) :
+    s.panicked = false := by
+  rcases h with h | h
+  · exact no_send_on_closed_channel _ facts_good_reply_channel.1 s h
+  · exact no_send_on_closed_channel _ facts_good_reply_channel.2 s h
+
+/-- … and the stream goroutine can always deliver the reply it owes (it is never left blocked on `se.ch <- err`). -/
+theorem holds_reply_always_deliverable (s : ReplyChan.State) (h : ReplyChan.Reachable Facts.replyChanClient s)
+    (i : Nat) (hw : s.worker = .holding i) : s.closed i = false ∧ s.pc i = .waiting :=
+  let r := reply_always_deliverable _ facts_good_reply_channel.1 s h i hw
+  ⟨r.1, r.2.1⟩
+
 end GoPlugin.Instance.C20
